@@ -46,9 +46,30 @@ def PrefixOK (cfg : Cfg) : Prop := isIdentifier cfg.pfx = true ∧ cfg.pfx.head?
 
 instance (cfg : Cfg) : Decidable (PrefixOK cfg) := by unfold PrefixOK; infer_instance
 
-/-- `f` (a case map on strings) sends an identifier that does not start with `_` to such an identifier -/
+/-- the constructor admits every prefix that is a non-empty identifier… -/
+theorem prefixStart_of_prefixOK {cfg : Cfg} (hp : PrefixOK cfg) : PrefixStart cfg := by
+  unfold PrefixStart
+  obtain ⟨h, _⟩ := hp
+  cases hc : cfg.pfx with
+  | nil => rw [hc] at h; simp [isIdentifier] at h
+  | cons c cs =>
+    rw [hc] at h
+    simp only [isIdentifier, Bool.and_eq_true, List.cons_append, List.all_append] at h ⊢
+    exact ⟨h.1, h.2, by decide +kernel⟩
+
+/-- …and, exactly: the empty prefix and the identifiers (a leading `_` included) -/
+theorem prefixStart_iff (cfg : Cfg) : PrefixStart cfg ↔ cfg.pfx = [] ∨ isIdentifier cfg.pfx = true := by
+  unfold PrefixStart
+  cases hc : cfg.pfx with
+  | nil => simp only [List.nil_append, true_or, iff_true]; decide +kernel
+  | cons c cs =>
+    have hu : isIdCont '_' = true := by decide +kernel
+    simp [isIdentifier, List.all_append, hu]
+
+/-- `f` (a case map on strings) sends an identifier to an identifier, and one that does not start with `_`
+to one that does not start with `_` -/
 def CaseFnOK (f : List Char → List Char) : Prop :=
-  ∀ s, isIdentifier s = true → s.head? ≠ some '_' → isIdentifier (f s) = true ∧ (f s).head? ≠ some '_'
+  ∀ s, isIdentifier s = true → isIdentifier (f s) = true ∧ (s.head? ≠ some '_' → (f s).head? ≠ some '_')
 
 def CaseOK (E : Env) : Prop := CaseFnOK E.lower ∧ CaseFnOK E.upper
 
@@ -81,6 +102,13 @@ theorem good_prefixed {cfg : Cfg} (hp : PrefixOK cfg) {s : List Char} (hs : s.al
     Good (cfg.pfx ++ '_' :: s) :=
   Good.append ⟨hp.1, hp.2⟩ (by simp [idCont_underscore, hs])
 
+/-- the same under the constructor's guard only: an identifier (it may start with `_`) -/
+theorem ident_prefixed {cfg : Cfg} (hp : PrefixStart cfg) {s : List Char} (hs : s.all isIdCont = true) :
+    isIdentifier (cfg.pfx ++ '_' :: s) = true := by
+  have : cfg.pfx ++ '_' :: s = (cfg.pfx ++ ['_']) ++ s := by simp
+  rw [this]
+  exact isIdentifier_append hp hs
+
 /-! ### the stages of the sanitiser -/
 
 theorem subIdent_idCont (c : Char) : isIdCont (subIdent c) = true := by
@@ -94,14 +122,14 @@ theorem subIdent_idCont (c : Char) : isIdCont (subIdent c) = true := by
 theorem sanitize_all_idCont (s : List Char) : (sanitize s).all isIdCont = true := by
   simp [sanitize, List.all_map, Function.comp_def, subIdent_idCont]
 
-theorem good_prefixHead {cfg : Cfg} (hp : PrefixOK cfg) {s : List Char} (hne : s ≠ [])
+theorem good_prefixHead {cfg : Cfg} (hp : PrefixStart cfg) {s : List Char} (hne : s ≠ [])
     (hs : s.all isIdCont = true) : isIdentifier (prefixHead cfg s) = true := by
   cases s with
   | nil => exact absurd rfl hne
   | cons c cs =>
     simp only [prefixHead]
     split
-    · exact (good_prefixed hp hs).1
+    · exact ident_prefixed hp hs
     · rename_i h
       simp only [Bool.or_eq_true, Bool.not_eq_eq_eq_not, Bool.not_true, not_or, Bool.not_eq_true,
         Bool.not_eq_false] at h
@@ -153,6 +181,50 @@ theorem loop_post {cfg : Cfg} (hp : PrefixOK cfg) {t : List Char} (ht : isIdenti
       have : (c :: cs).head? ≠ some '_' := by simp [hc]
       rw [if_neg this]
       exact ⟨by simp [isIdentifier, ht.1, ht.2], this⟩
+
+/-- under the constructor's guard only: after the leading-underscore loop the name is an identifier or
+(underscores stripped) a string of identifier-continue characters -/
+theorem loop_post_ident {cfg : Cfg} (hp : PrefixStart cfg) {t : List Char} (ht : isIdentifier t = true) :
+    isIdentifier (underscoreLoop cfg t) = true ∨ (underscoreLoop cfg t).all isIdCont = true := by
+  unfold underscoreLoop
+  cases t with
+  | nil => simp [isIdentifier] at ht
+  | cons c cs =>
+    simp only [isIdentifier, Bool.and_eq_true] at ht
+    by_cases hc : c = '_'
+    · subst hc
+      have hall : ('_' :: cs).all isIdCont = true := by simp [idCont_underscore, ht.2]
+      simp only [List.head?_cons, if_true]
+      split
+      · exact Or.inr (all_dropWhile hall)
+      · left
+        have : cfg.pfx ++ '_' :: cs = (cfg.pfx ++ ['_']) ++ cs := by simp
+        rw [this]
+        exact isIdentifier_append hp ht.2
+    · left
+      have : (c :: cs).head? ≠ some '_' := by simp [hc]
+      rw [if_neg this]
+      simp [isIdentifier, ht.1, ht.2]
+
+theorem ident_repairHead {cfg : Cfg} (hp : PrefixStart cfg) {u : List Char}
+    (h : isIdentifier u = true ∨ u.all isIdCont = true) : isIdentifier (repairHead cfg u) = true := by
+  cases u with
+  | nil =>
+    simp only [repairHead]
+    exact hp
+  | cons c cs =>
+    simp only [repairHead]
+    split
+    · rename_i hc
+      rcases h with h | h
+      · simp [isIdentifier] at h; simp [h.1] at hc
+      · exact ident_prefixed hp h
+    · rename_i hc
+      simp only [Bool.not_eq_eq_eq_not, Bool.not_true, Bool.not_eq_false] at hc
+      rcases h with h | h
+      · exact h
+      · simp only [List.all_cons, Bool.and_eq_true] at h
+        simp [isIdentifier, hc, h.2]
 
 theorem good_repairHead {cfg : Cfg} (hp : PrefixOK cfg) {u : List Char}
     (h : Good u ∨ (u.all isIdCont = true ∧ u.head? ≠ some '_')) : Good (repairHead cfg u) := by
@@ -228,8 +300,9 @@ theorem sub2_cons (c : Char) (cs : List Char) :
       exact ⟨idCont_underscore, h.1, sub2_all _ h.2⟩
     · exact ⟨_, rfl, fun h => sub2_all _ h⟩
 
-theorem good_subs {s : List Char} (h : Good s) : Good (sub2 (sub1Go false s)) := by
-  obtain ⟨hid, hh⟩ := h
+/-- the two substitutions keep the first character and only insert `_` -/
+theorem subs_head_ident {s : List Char} (hid : isIdentifier s = true) :
+    isIdentifier (sub2 (sub1Go false s)) = true ∧ (sub2 (sub1Go false s)).head? = s.head? := by
   cases s with
   | nil => simp [isIdentifier] at hid
   | cons c cs =>
@@ -237,12 +310,20 @@ theorem good_subs {s : List Char} (h : Good s) : Good (sub2 (sub1Go false s)) :=
     obtain ⟨r1, h1, a1⟩ := sub1Go_cons false c cs
     obtain ⟨r2, h2, a2⟩ := sub2_cons c r1
     rw [h1, h2]
-    exact ⟨by simp [isIdentifier, hid.1, a2 (a1 hid.2)], by simpa using hh⟩
+    exact ⟨by simp [isIdentifier, hid.1, a2 (a1 hid.2)], rfl⟩
+
+theorem good_subs {s : List Char} (h : Good s) : Good (sub2 (sub1Go false s)) := by
+  obtain ⟨h1, h2⟩ := subs_head_ident h.1
+  exact ⟨h1, by rw [h2]; exact h.2⟩
+
+theorem ident_camelToSnake {E : Env} (hE : CaseOK E) {s : List Char} (h : isIdentifier s = true) :
+    isIdentifier (camelToSnake E s) = true :=
+  (hE.1 _ (subs_head_ident h).1).1
 
 theorem good_camelToSnake {E : Env} (hE : CaseOK E) {s : List Char} (h : Good s) :
     Good (camelToSnake E s) := by
   have := good_subs h
-  exact hE.1 _ this.1 this.2
+  exact ⟨(hE.1 _ this.1).1, (hE.1 _ this.1).2 this.2⟩
 
 theorem good_suffixReserved (k : Kind) {s : List Char} (h : Good s) : Good (suffixReserved k s) := by
   unfold suffixReserved
@@ -250,11 +331,29 @@ theorem good_suffixReserved (k : Kind) {s : List Char} (h : Good s) : Good (suff
   · exact h.append (by simp [idCont_underscore])
   · exact h
 
+theorem ident_suffixReserved (k : Kind) {s : List Char} (h : isIdentifier s = true) :
+    isIdentifier (suffixReserved k s) = true := by
+  unfold suffixReserved
+  split
+  · exact isIdentifier_append h (by simp [idCont_underscore])
+  · exact h
+
+/-- for EVERY configuration the constructor admits (`PrefixStart`: the empty prefix and prefixes starting
+with `_` included) the body handed to the retry loop is an identifier -/
+theorem ident_body {E : Env} {cfg : Cfg} (hp : PrefixStart cfg) (hE : CaseOK E) (k : Kind) (ign : Bool)
+    {s : List Char} (hne : s ≠ []) (hs : s.all isIdCont = true) : isIdentifier (body E k cfg ign s) = true := by
+  unfold body
+  have h3 := ident_repairHead hp (loop_post_ident hp (good_prefixHead hp hne hs))
+  apply ident_suffixReserved
+  split
+  · exact ident_camelToSnake hE h3
+  · exact h3
+
 /-- the body handed to the retry loop is an identifier that does not start with `_` -/
 theorem good_body {E : Env} {cfg : Cfg} (hp : PrefixOK cfg) (hE : CaseOK E) (k : Kind) (ign : Bool)
     {s : List Char} (hne : s ≠ []) (hs : s.all isIdCont = true) : Good (body E k cfg ign s) := by
   unfold body
-  have h3 := good_repairHead hp (loop_post hp (good_prefixHead hp hne hs))
+  have h3 := good_repairHead hp (loop_post hp (good_prefixHead (prefixStart_of_prefixOK hp) hne hs))
   apply good_suffixReserved
   split
   · exact good_camelToSnake hE h3
@@ -300,6 +399,10 @@ theorem cand_eq (b : List Char) (uc : Bool) (i : Nat) :
 theorem good_cand {b : List Char} (hb : Good b) (uc : Bool) (i : Nat) : Good (cand b uc i) := by
   rw [cand_eq]; exact hb.append (cand_tail_all uc i)
 
+theorem ident_cand {b : List Char} (hb : isIdentifier b = true) (uc : Bool) (i : Nat) :
+    isIdentifier (cand b uc i) = true := by
+  rw [cand_eq]; exact isIdentifier_append hb (cand_tail_all uc i)
+
 theorem getLast?_digits (n : Nat) : ∃ c, (digits n).getLast? = some c ∧ c.isDigit = true := by
   have hne := digits_ne_nil n
   refine ⟨(digits n).getLast hne, List.getLast?_eq_some_getLast hne, ?_⟩
@@ -338,10 +441,10 @@ theorem cand_not_reserved (b : List Char) (uc : Bool) (i : Nat) : isPydReserved 
     rw [not_lastNotDigit_cand] at this
     cases this
 
-/-- for a good body, a candidate fails the loop condition only by being excluded -/
-theorem bad_cand {b : List Char} (hb : Good b) (k : Kind) (excl : List (List Char)) (uc : Bool) (i : Nat) :
-    bad k excl (cand b uc i) = excl.contains (cand b uc i) := by
-  simp [bad, (good_cand hb uc i).1, cand_not_keyword]
+/-- for a body that is an identifier, a candidate fails the loop condition only by being excluded -/
+theorem bad_cand {b : List Char} (hb : isIdentifier b = true) (k : Kind) (excl : List (List Char)) (uc : Bool)
+    (i : Nat) : bad k excl (cand b uc i) = excl.contains (cand b uc i) := by
+  simp [bad, ident_cand hb uc i, cand_not_keyword]
 
 /-! ### pigeonhole: among `|l| + 1` values of an injective sequence one is outside `l` -/
 
@@ -413,8 +516,8 @@ theorem retry_finds {k : Kind} {excl : List (List Char)} {b : List Char} {uc : B
       · omega
     · intro h; cases h
 
-/-- the loop started on a good body with fuel `|excl| + 2` returns -/
-theorem retry_terminates_good {b : List Char} (hb : Good b) (k : Kind) (excl : List (List Char))
+/-- the loop started on a body that is an identifier returns with fuel `|excl| + 2` -/
+theorem retry_terminates_good {b : List Char} (hb : isIdentifier b = true) (k : Kind) (excl : List (List Char))
     (uc : Bool) (new : List Char) :
     retry k excl b uc (excl.length + 2) 1 new ≠ .outOfFuel := by
   rw [retry]
@@ -604,7 +707,7 @@ theorem caseFnOK_map (f : Char → Char)
     (hf : ∀ c, (isIdStart c = true → isIdStart (f c) = true) ∧
       (isIdCont c = true → isIdCont (f c) = true) ∧ (f c = '_' → c = '_')) :
     CaseFnOK (List.map f) := by
-  intro s hs hh
+  intro s hs
   cases s with
   | nil => simp [isIdentifier] at hs
   | cons c cs =>
@@ -613,7 +716,8 @@ theorem caseFnOK_map (f : Char → Char)
     · simp only [List.map_cons, isIdentifier, Bool.and_eq_true, List.all_eq_true, List.mem_map,
         forall_exists_index, and_imp, forall_apply_eq_imp_iff₂]
       exact ⟨(hf c).1 hs.1, fun d hd => (hf d).2.1 (hs.2 d hd)⟩
-    · simp only [List.map_cons, List.head?_cons, ne_eq, Option.some.injEq]
+    · intro hh
+      simp only [List.map_cons, List.head?_cons, ne_eq, Option.some.injEq]
       intro h
       exact hh (by simp [(hf c).2.2 h])
 
